@@ -35,6 +35,15 @@ class Check:
             dict(rule=rule, construct=construct, where=where, ok=True, detail=detail, trivial=trivial)
         )
 
+    def _points_inside(self, fkey: str, where: str) -> bool:
+        """does `where` (path:line) name a line other than the first line of function `fkey`?"""
+        if getattr(self, "_deflines", None) is None:
+            self._deflines = {}
+            for g in self.prog._all_functions():
+                self._deflines.setdefault(g.key, set()).add(f"{g.module.relpath}:{getattr(g.raw, 'lineno', 0)}")
+                self._deflines[g.key].add(g.where())
+        return bool(where) and where not in self._deflines.get(fkey, set())
+
     def fail(self, rule: str, construct: str, where: str, what: str):
         # a rule that looks at a function which still calls *new* private helpers the model could not expand sees only part
         # of the code: what it would report is not a verdict ("cannot decide"), the same as an unknown idiom
@@ -42,6 +51,12 @@ class Check:
         if inl is not None and inl.residual:
             key = ":".join(construct.split(":")[:2])
             res = inl.residual.get(key)
+            # only "expected shape not found" reports are in doubt (they point at the function as a whole); a report that
+            # points at a concrete statement inside the function found something that is there, helpers or not
+            if res and not self._points_inside(key, where):
+                res = res
+            else:
+                res = None
             if res:
                 why = "; ".join(l for l in inl.log if any(h in l for h in res))[:300]
                 self.refusals.append(f"{rule} {construct}: not decided - {key} still calls new helper(s) {res} that could not be expanded in place ({why}); "
